@@ -188,7 +188,12 @@ impl Scanner {
                 self.read_char();
                 // if the character is ascii, return a byte token
                 if the_byte.is_ascii() {
-                    return self.make_token(TokenType::Byte, &the_byte.to_string());
+                    let token = self.make_token(TokenType::Byte, &the_byte.to_string());
+                    // a newline inside the literal is a line like any other
+                    if the_byte == '\n' {
+                        self.line += 1;
+                    }
+                    return token;
                 }
             }
             // If no immediate ending quote (') was found, return an illegal token
@@ -317,7 +322,12 @@ impl Scanner {
         let the_char = self.ch.to_string();
         self.read_char();
         if self.ch == '\'' {
-            return self.make_token(TokenType::Char, &the_char);
+            let token = self.make_token(TokenType::Char, &the_char);
+            // a newline inside the literal is a line like any other
+            if the_char == "\n" {
+                self.line += 1;
+            }
+            return token;
         }
         // If no immediate ending quote (') was found, return an illegal token
         while self.ch != '\'' && self.ch != '\0' {
@@ -371,8 +381,12 @@ impl Scanner {
                 ' ' | '\t' => {
                     self.read_char();
                 }
-                '\n' | '\r' => {
+                '\n' => {
                     self.line += 1;
+                    self.read_char();
+                }
+                // the CR of a CRLF line ending is not a line of its own
+                '\r' => {
                     self.read_char();
                 }
                 _ => {
